@@ -87,6 +87,9 @@ def run_optimal(case):
             raise Skip()
         res = gcall(vol.optimal_path, start=start, stop=stop, method=method, allow=(nx.NetworkXNoPath,))
     else:
+        if case.get('other_graph_first'):
+            gcall(vol.free_energy_graph, max_energy_threshold=thr, diagonal=not diag)  # an earlier request on the same volume
+            gcall(vol.optimal_path, start=start, stop=stop, method='dijkstra', allow=(nx.NetworkXNoPath, nx.NodeNotFound))
         G = gcall(vol.free_energy_graph, max_energy_threshold=thr, diagonal=diag)
         if set(map(tuple, G.nodes)) != set(adj):
             raise Violation('graph-nodes', 'node set differs from the admissible voxels')
@@ -224,7 +227,7 @@ def optimal_cases(draw, tier):
     return {'lattice': draw(gen.lattices(families=['cubic', 'orthorhombic', 'triclinic'], orients=['lower'])), 'F': draw(st.one_of(grids(), grids(), ring_grids())),
             'threshold': draw(st.sampled_from([1e7, 1e7, 1e20, 3.0, 4.5])), 'diagonal': draw(st.sampled_from([True, True, False])),
             'method': draw(st.sampled_from(METHODS)), 'start': draw(st.integers(0, 124)), 'stop': draw(st.integers(0, 124)),
-            'default_graph': draw(st.sampled_from([False, False, True])),
+            'default_graph': draw(st.sampled_from([False, False, True])), 'other_graph_first': draw(st.booleans()),
             'pre_queries': draw(st.lists(st.tuples(st.sampled_from(['minmax-energy', 'minmax-energy', 'dijkstra']), st.integers(0, 124), st.integers(0, 124)).map(list), max_size=2))}
 
 
